@@ -11,7 +11,7 @@ use std::ffi::CString;
 
 pub static DEF: PropDef = PropDef {
     id: "C12",
-    rule: "tier A (matcher behind -name/-path/-lname through the verif-hooks entry point vs glibc fnmatch(3) in locale C.UTF-8, flags 0 and FNM_CASEFOLD): exhaustive over every pattern of <= 4 (thorough 5) symbols from {a b * ? [ ] ! - \\ . /} x every subject of <= 4 symbols from {a b . / - ] NL}; random patterns of <= 16 pieces (literals incl. every regex metacharacter . ^ $ + ( ) { } |, '*', '?', escapes, bracket expressions with ranges, '!' negation, ']' first, each of the twelve character classes [[:alpha:]] ... [[:xdigit:]] (plain, negated, with further members) paired with each of its ASCII members 1..127, stray '[' ']' '!', an unmatched '[' followed by text of the form [.a.] / [=a=] and regex operators, trailing backslash, multi-byte characters) against subjects derived from the pattern (a string that matches by construction and its one-edit neighbours: extra prefix/suffix, changed case, inserted '/', leading '.', embedded newline, dropped character) plus random strings. tier B (end to end): a directory of files named by slash-free subjects and of symbolic links whose targets are arbitrary subjects; find DIR -name|-iname|-path|-ipath|-wholename|-lname|-ilname PAT -print0 in process; the selected set must equal {entries whose basename / printed path / link target fnmatch-es}. tier C (which string is matched): a fixed tree (directories, files, a dot file, links to a file, to a directory, dangling; links as starting points) walked from 29 starting-point spellings (plain, trailing slashes, /., /.., //, ./, '.', through links) under -P/-H/-L with -maxdepth 0/1/2/none; the pattern is a literal / '*'+tail / head+'*' / upper-cased / bracketed / '?' form of a string of one entry (the named string itself, its last ordinary component, whole path, last component, link text, path without trailing slashes, name of the file it resolves to); expected: exactly the entries of the reference walk whose last path component (trailing slashes dropped; '.' and '..' are components) / path as printed / link text (only where the follow mode leaves the entry a link) fnmatch-es. Pairs on which fnmatch reports an error are skipped and counted. Non-trivial = the pattern contains a wildcard or bracket AND a backslash or regex metacharacter, and both a matching and a non-matching subject were tried. Distinct = distinct (pattern, flags) pair.",
+    rule: "tier A (matcher behind -name/-path/-lname through the verif-hooks entry point vs glibc fnmatch(3) in locale C.UTF-8, flags 0 and FNM_CASEFOLD): exhaustive over every pattern of <= 4 (thorough 5) symbols from {a b * ? [ ] ! - \\ . /} x every subject of <= 4 symbols from {a b . / - ] NL}; random patterns of <= 16 pieces (literals incl. every regex metacharacter . ^ $ + ( ) { } |, '*', '?', escapes, bracket expressions with ranges, '!' negation, ']' first, each of the twelve character classes [[:alpha:]] ... [[:xdigit:]] (plain, negated, with further members) paired with each of its ASCII members 1..127, stray '[' ']' '!', an unmatched '[' followed by text of the form [.a.] / [=a=] and regex operators, trailing backslash, multi-byte characters) and, in a sub-run of its own, patterns with 2-8 '*' between short texts against subjects of up to several thousand characters built to match with many false starts; against subjects derived from the pattern (a string that matches by construction and its one-edit neighbours: extra prefix/suffix, changed case, inserted '/', leading '.', embedded newline, dropped character) plus random strings. tier B (end to end): a directory of files named by slash-free subjects and of symbolic links whose targets are arbitrary subjects; find DIR -name|-iname|-path|-ipath|-wholename|-lname|-ilname PAT -print0 in process; the selected set must equal {entries whose basename / printed path / link target fnmatch-es}. tier C (which string is matched): a fixed tree (directories, files, a dot file, links to a file, to a directory, dangling; links as starting points) walked from 29 starting-point spellings (plain, trailing slashes, /., /.., //, ./, '.', through links) under -P/-H/-L with -maxdepth 0/1/2/none; the pattern is a literal / '*'+tail / head+'*' / upper-cased / bracketed / '?' form of a string of one entry (the named string itself, its last ordinary component, whole path, last component, link text, path without trailing slashes, name of the file it resolves to); expected: exactly the entries of the reference walk whose last path component (trailing slashes dropped; '.' and '..' are components) / path as printed / link text (only where the follow mode leaves the entry a link) fnmatch-es. Pairs on which fnmatch reports an error are skipped and counted. Non-trivial = the pattern contains a wildcard or bracket AND a backslash or regex metacharacter, and both a matching and a non-matching subject were tried. Distinct = distinct (pattern, flags) pair.",
     assumptions: &[
         "glibc fnmatch(3) with flags 0 / FNM_CASEFOLD in locale C.UTF-8 is POSIX fnmatch() for the patterns generated",
         "not generated / not compared (POSIX leaves them unspecified or implementations legitimately differ): '^' first in a bracket expression, a backslash inside a bracket expression, reversed ranges, collating symbols and equivalence classes inside a matched bracket expression (and, anywhere, ones of more than one character, at which glibc gives up on the whole pattern), case folding of non-ASCII letters, subjects or patterns that are not valid UTF-8",
@@ -560,6 +560,74 @@ fn gen_random(g: &mut Gen) -> PatCase {
     PatCase { pattern, subjects }
 }
 
+/// several '*' and long subjects: a translation into a backtracking matcher answers these slowly or
+/// (when the matcher gives up) wrongly; the text between two stars has to be found wherever it is
+fn gen_many_stars(g: &mut Gen) -> PatCase {
+    let stars = g.usize_in(2, 8);
+    let mut pattern = String::new();
+    let mut member = String::new();
+    let filler = |g: &mut Gen| -> String {
+        let n = match g.below(6) {
+            0 => 0,
+            1 => g.usize_in(1, 4),
+            2 | 3 => g.usize_in(5, 120),
+            4 => g.usize_in(120, 500),
+            _ => g.usize_in(500, 3000),
+        };
+        // mostly one letter, so that the text between the stars has many false starts
+        let main = g.pick(&['a', 'b']);
+        (0..n).map(|_| if g.chance(1, 12) { g.pick(&['a', 'b', 'c', '/', '.']) } else { main }).collect()
+    };
+    for i in 0..=stars {
+        // the text before the first, between two, after the last star
+        let n = if (i == 0 || i == stars) && g.bool() { 0 } else { g.usize_in(1, 4) };
+        for _ in 0..n {
+            match g.weighted(&[6, 1, 1, 1]) {
+                0 => {
+                    let c = g.pick(&['a', 'a', 'b', 'b', 'c', '.', '+']);
+                    pattern.push(c);
+                    member.push(c);
+                }
+                1 => {
+                    pattern.push('?');
+                    member.push(g.pick(&['a', 'b', '/']));
+                }
+                2 => {
+                    pattern.push_str("[ab]");
+                    member.push(g.pick(&['a', 'b']));
+                }
+                _ => {
+                    pattern.push_str("\\?");
+                    member.push('?');
+                }
+            }
+        }
+        if i < stars {
+            pattern.push('*');
+            member.push_str(&filler(g));
+        }
+    }
+    let mut subjects = vec![member.clone()];
+    let chars: Vec<char> = member.chars().collect();
+    if !chars.is_empty() {
+        subjects.push(chars[..chars.len() - 1].iter().collect());
+        subjects.push(chars[1..].iter().collect());
+        let mut v = chars.clone();
+        let k = g.below(v.len() as u64) as usize;
+        v[k] = g.pick(&['a', 'b', 'c', 'x']);
+        subjects.push(v.iter().collect());
+        let mut v = chars.clone();
+        let k = v.len() - 1 - g.below(v.len().min(4) as u64) as usize;
+        v[k] = g.pick(&['a', 'b', 'x']);
+        subjects.push(v.iter().collect());
+    }
+    subjects.push(format!("x{member}"));
+    subjects.push(format!("{member}x"));
+    subjects.push(filler(g));
+    subjects.dedup();
+    PatCase { pattern, subjects }
+}
+
 // ---------------------------------------------------------------------------
 // tier B: end to end
 // ---------------------------------------------------------------------------
@@ -853,6 +921,7 @@ fn run(w: &mut Worker) {
     let pats = all_strings(PSYM, maxp);
     w.exhaustive("pairs-small", &format!("every pattern of <= {maxp} symbols over {{a b * ? [ ] ! - \\ . /}} x every subject of <= 4 symbols over {{a b . / - ] NL}} (+14 extra), both case modes"), pats.into_iter().map(|pattern| PatCase { pattern, subjects: vec![] }), check_pat);
     w.random("pairs", w.tier.pick(60_000, 1_000_000), (40, 160), 800, gen_random, check_pat);
+    w.random("pairs-many-stars", w.tier.pick(12_000, 200_000), (40, 160), 400, gen_many_stars, check_pat);
     w.random("e2e", w.tier.pick(6_000, 80_000), (40, 160), 400, gen_e2e, check_e2e);
     w.regress::<SubjCase>("subject", check_subj);
     let mut roots: Vec<SubjCase> = vec![];
